@@ -225,6 +225,38 @@ def _contains_stat(v):
     return False
 
 
+def _flat(attrs, nested, prefix="", depth=0):
+    """the object's attributes, those of helper objects it is composed of included under dotted names"""
+    out = {}
+    for k, v in attrs.items():
+        if isinstance(v, Instance) and isinstance(v.cls, ClassVal) and v.cls.module is not None and not v.cls.builtin and depth < 2 \
+                and not any(c.builtin and c.name != "object" for c in v.cls.mro()):
+            nested[prefix + k] = v.cls
+            out.update(_flat(v.attrs, nested, prefix + k + ".", depth + 1))
+        else:
+            out[prefix + k] = v
+    return out
+
+
+def _get_path(obj, name):
+    for part in name.split("."):
+        if not isinstance(obj, Instance):
+            return None
+        obj = obj.attrs.get(part)
+    return obj
+
+
+def _put_path(obj, name, value, nested):
+    parts = name.split(".")
+    for i, part in enumerate(parts[:-1]):
+        nxt = obj.attrs.get(part)
+        if not isinstance(nxt, Instance):
+            nxt = Instance(nested[".".join(parts[:i + 1])])
+            obj.attrs[part] = nxt
+        obj = nxt
+    obj.attrs[parts[-1]] = value
+
+
 def _one_attr(attrs, pred, what, cls):
     names = [k for k, v in attrs.items() if pred(v)]
     if len(names) != 1:
@@ -259,6 +291,7 @@ def scsi_layout(prog):
     I = prog.I
     cls = prog.cls("pyscsi.pyscsi.scsi_device", "SCSIDevice")
     runs = []
+    nested = {}
     path = "/dev/sg0"
     for rw, det, buf in ((True, False, 7), (False, True, 9)):
         si = StandIn(prog).install()
@@ -269,7 +302,7 @@ def scsi_layout(prog):
             si.remove()
         if not ps or not isinstance(ps[0].value, Instance):
             raise AnalysisError("anchor-missing", "SCSIDevice(device, readwrite, detect_replugged, buffering) cannot be constructed over the stand-in")
-        runs.append(dict(ps[0].value.attrs))
+        runs.append(_flat(dict(ps[0].value.attrs), nested))
     A, B = runs
     L = {"file_name": _one_attr(B, lambda v: v is path or v == path, "the device path", "SCSIDevice"),
          "handle": _one_attr(B, lambda v: isinstance(v, External) and v.name.startswith("file-handle"), "the open handle", "SCSIDevice"),
@@ -286,7 +319,8 @@ def scsi_layout(prog):
     if len([k for k, v in B.items() if _contains_stat(v)]) > 1:
         raise AnalysisError("anchor-missing", "SCSIDevice keeps the identity of the node it opened in more than one place")
     L["devicetype"] = _setter_slot(prog, cls, "devicetype")
-    L["others"] = {k: v for k, v in B.items() if k not in L.values()}
+    L["others"] = {k: v for k, v in B.items() if k not in [x for x in L.values() if isinstance(x, str)]}
+    L["_nested"] = nested
     prog._scsi_layout = L
     return L
 
@@ -342,13 +376,14 @@ def _layout_of(prog, obj):
 def slot(prog, obj, role):
     """what the object keeps in the given role (handle, ident, opcodes, file_name, detect ...)"""
     name = _layout_of(prog, obj)[role]
-    return obj.attrs.get(name) if name is not None else None
+    return _get_path(obj, name) if name is not None else None
 
 
 def put(prog, obj, role, value):
-    name = _layout_of(prog, obj)[role]
+    L = _layout_of(prog, obj)
+    name = L[role]
     if name is not None:
-        obj.attrs[name] = value
+        _put_path(obj, name, value, L.get("_nested", {}))
 
 
 def _recorded(shape):
@@ -379,14 +414,16 @@ def make_scsi_device(prog):
     L = scsi_layout(prog)
     cls = prog.cls("pyscsi.pyscsi.scsi_device", "SCSIDevice")
     dev = Instance(cls)
-    dev.attrs.update(L["others"])
-    dev.attrs.update({L["file_name"]: SymStr("devname"), L["read_write"]: False, L["handle"]: External("file-handle@%d" % _next_id()),
-                      L["detect"]: False, L["buffering"]: -1,
-                      L["opcodes"]: L["others"].get(L["opcodes"], prog.module("pyscsi.pyscsi.scsi_enum_command").env["spc"]),
-                      # whatever an earlier attach stored on the device (any peripheral device type)
-                      L["devicetype"]: Sym.param("devicetype", 5)})
+    parts = dict(L["others"])
+    parts.update({L["file_name"]: SymStr("devname"), L["read_write"]: False, L["handle"]: External("file-handle@%d" % _next_id()),
+                  L["detect"]: False, L["buffering"]: -1,
+                  L["opcodes"]: L["others"].get(L["opcodes"], prog.module("pyscsi.pyscsi.scsi_enum_command").env["spc"]),
+                  # whatever an earlier attach stored on the device (any peripheral device type)
+                  L["devicetype"]: Sym.param("devicetype", 5)})
     if L["ident"] is not None:
-        dev.attrs[L["ident"]] = _recorded(L["ident_shape"])
+        parts[L["ident"]] = _recorded(L["ident_shape"])
+    for k, v in parts.items():
+        _put_path(dev, k, v, L["_nested"])        # (helper objects the device is composed of are built afresh per device)
     return dev
 
 
